@@ -133,14 +133,21 @@ def check_tuple(v, ra):
     return out
 
 
-def check_string(v, ra, fancy, nd):
+def check_string(v, ra, fancy, nd, tol=None, via_copy=False):
     a = Angle(v)
+    if tol is not None:
+        # history: the comparison tolerance of the object was changed before printing
+        a.set_tolerance(tol)
+        if via_copy:
+            a = Angle(a)
     try:
         sx = a.ra_str(fancy, nd) if ra else a.dms_str(fancy, nd)
     except Exception as ex:
         return [("string", "%s_str(%r, %r) of Angle(%r) raised %r"
                  % ("ra" if ra else "dms", fancy, nd, v, ex))]
-    what = "Angle(%r).%s_str(fancy=%r, n_dec=%d) = %r" % (v, "ra" if ra else "dms", fancy, nd, sx)
+    what = "Angle(%r)%s.%s_str(fancy=%r, n_dec=%d) = %r" % (
+        v, "" if tol is None else (" [tolerance %r%s]" % (tol, ", copied" if via_copy else "")),
+        "ra" if ra else "dms", fancy, nd, sx)
     if not isinstance(sx, str):
         return [("string", what + " is not a string")]
     try:
@@ -214,6 +221,31 @@ def run_values(block, ctx):
                 "ra_tuple": list(Angle(block[0]).ra_tuple())})
 
 
+TOLS = [0.0, 1e-3, 0.5, 1.0000001]
+
+
+def check_value_tol(v):
+    res = []
+    for tol in TOLS:
+        for via_copy in (False, True):
+            for ra in (False, True):
+                for fancy in (True, False):
+                    for nd in (-1, 0, 1, 3):
+                        res += check_string(v, ra, fancy, nd, tol, via_copy)
+    return res
+
+
+def run_values_tol(block, ctx):
+    for v in block:
+        ctx.evals += len(TOLS) * 2 * 2 * 2 * 4
+        ctx.nt_count += 1
+        for site, msg in check_value_tol(v):
+            ctx.viol({"value": v}, msg, site="tolerance_" + site)
+        ctx.obs(v)
+    ctx.outcome(len(block))
+    ctx.sample({"value": block[0], "tolerances": TOLS})
+
+
 def reachable(x0):
     """Values reached by the C03 depth-2 operator BFS from x0 (no oracles)."""
     events = c03.make_events(c03.OPERANDS)
@@ -268,7 +300,10 @@ def replay(case):
 
 
 def clauses(tier):
-    out = [Clause("lattice", chunks(lattice(), 64), run_values, replay, floor=2000)]
+    crit = [v for v in lattice() if is_nontrivial(v)]
+    out = [Clause("lattice", chunks(lattice(), 64), run_values, replay, floor=2000),
+           Clause("tolerance_history", chunks(crit, 32), run_values_tol,
+                  lambda c: [m for _, m in check_value_tol(c["value"])], floor=1000, shape="H")]
     if tier == "thorough":
         out.append(Clause("c03_bfs_states", list(c03.INITIALS), run_bfs_states, replay, floor=5000))
     return out
